@@ -108,7 +108,7 @@ func genC10Case(rt *rapid.T, thorough bool) *c10Case {
 		max = 14 << 20
 	}
 	if raceEnabled {
-		max = 5 << 20
+		max = 2 << 20 // the race tier is about interleavings, not volume
 	}
 	c.Volume = volumeFor(max, c.PlanA.Chunks, c.PlanB.Chunks)
 	budget := c.Volume
@@ -649,7 +649,7 @@ func runC10BFCase(c *c10BFCase) (fails []c10Fail, st c10Stats, sendQueueHit bool
 			}
 			cliWant += len(msgs)
 			if !waitCond(patience, nil, progress, func() bool { return cli.count() >= cliWant }) {
-				done <- res{"C10:blockfetch:not-delivered", fmt.Sprintf("batch %d: client handled %d of %d messages within %v", bi, cli.count(), cliWant, patience)}
+				done <- res{"C10:blockfetch:not-delivered", fmt.Sprintf("batch %d: client handled %d of %d messages, then no progress for %v", bi, cli.count(), cliWant, patience)}
 				return
 			}
 		}
